@@ -265,7 +265,7 @@ def check(ck):
             and all(pa.cfg.must_pass(pa.nodes(upd[0]), i) for i in pa.nodes(cw[0]))
     ck.ob(R3, pa.key(None, "accumulates"), okpa, "partial() appends positional and updates keyword partials on a clone" if okpa else
           "partial() no longer accumulates (existing partials + new ones) into the clone", pa.where())
-    check_typed_identity(ck, "C04.R4", ("reference", "base"))
+    ck.run(check_typed_identity, ck, "C04.R4", ("reference", "base"))
     from .c16 import sibling_reference_sites
     ck.rule("C04.R5", "every keyed reference construction in base.py (call, call_batch, forget, memento, metadata) passes the function's context args, so all entry points compute the same key", 6)
     sibling_reference_sites(ck, "C04.R5")
